@@ -34,7 +34,9 @@ CHECKS.update({
     "C01": {
         "text": "Contract (valid <=> intact with TLC's own FCS-16, exact accessors, disjoint in-order flag-delimited segments) is checked by "
                 "TLC on every frame of every recorded execution of the real reader, and as invariants of the implementation-shaped reader "
-                "model (with its buffer layer) over all wires of a segment library under all chunkings, 4 configurations. " + _BIND + ".",
+                "model (with its buffer layer) over all wires of a segment library under all chunkings, 4 configurations. " + _BIND + ". "
+                "Beyond the property: accessor values on partial frames (HdlcFrame.append octet by octet) are judged against spec/hdlc/"
+                "HdlcPartial.tla at DRIFT level.",
         "design_ref": "§6-C01",
         "note": "frames above ~12 octets are sampled, not enumerated; segmentation witnesses are searched in Python and verified by TLC; "
                 "trusted: TLC, CommunityModules Bitwise/Json overrides, the recording transport",
@@ -90,7 +92,9 @@ CHECKS.update({
         "text": "Task-level TLA+ model of connect_loop/close/_try_connect (one action per stretch between awaits, environment close/loss/"
                 "outcomes, arbitrary interleaving of ready tasks) checked against the contract monitor exhaustively; the real manager runs "
                 "on a deterministic virtual-time loop for every outcome script x lifetime pattern with close() injected at EVERY loop "
-                "iteration, plus thousands of reconnect cycles; each event trace is judged by TLC with the same contract operators.",
+                "iteration, plus thousands of reconnect cycles and second connect_loop() runs on the same manager; each event trace is judged "
+                "by TLC with the same contract operators, and a sample of executions is additionally validated against the task model itself "
+                "(Trace_ConnTasks: silent internal steps bounded by the next logged time stamp; rejection = DRIFT).",
         "design_ref": "§6-C17",
         "note": "events are recorded by harness-owned fakes (factory, transport); interleavings of the real loop are those reachable by "
                 "moving close() across iterations (asyncio's ready queue is FIFO); task bound 8",
